@@ -303,25 +303,22 @@ static std::string summarize(std::string const &reply)
 		std::string r="list "+vh::hex(between(body,0,"<h1>Index of ","</h1>\n"));
 		bool parent = body.find("<tr><td><code><a href='../' >..</a></code></td>")!=std::string::npos;
 		r+= parent ? " P" : " N";
-		std::string hrefs;
+		// every row: the raw anchor element between "<tr><td><code>" and "</code></td>" (the ".." row excepted);
+		// it is judged and compared as a whole, so an attribute that ends early cannot hide in a lenient parse
 		size_t pos=0;
-		std::string const open="<tr><td><code><a href='";
+		std::string const open="<tr><td><code>", close="</code></td>";
 		for(;;) {
 			size_t i=body.find(open,pos);
 			if(i==std::string::npos) break;
 			i+=open.size();
-			size_t j=body.find('\'',i);
-			if(j==std::string::npos) break;
-			std::string href=body.substr(i,j-i);
-			if(body.compare(j,3,"' >")==0) { pos=j; continue; } // the ".." row
-			if(body.compare(j,2,"'>")!=0) { r+=" badrow"; pos=j; continue; }
-			size_t k=body.find("</a></code></td>",j+2);
+			size_t k=body.find(close,i);
 			if(k==std::string::npos) { r+=" badrow"; break; }
-			r+=" "+vh::hex(body.substr(j+2,k-(j+2)));
-			hrefs+=" "+vh::hex(href);
-			pos=k;
+			std::string cell=body.substr(i,k-i);
+			pos=k+close.size();
+			if(cell=="<a href='../' >..</a>") continue;
+			r+=" "+vh::hex(cell);
 		}
-		return r+" H"+hrefs;
+		return r;
 	}
 	return "file "+vh::hex(body);
 }
